@@ -60,6 +60,12 @@ Theorem C08_median2_meaning : forall l s, Permutation s l -> StronglySorted Z.le
               if Nat.even n then (nth (n / 2 - 1) s 0 + nth (n / 2) s 0)%Z else (2 * nth (n / 2) s 0)%Z.
 Proof. exact median2_sorted. Qed.
 
+(* ... which is a median in the usual sense: at most half of the scores lie strictly below it, at most half above *)
+Theorem C08_median_rank : forall l, l <> [] ->
+  (2 * length (filter (below2 (median2 l)) l) <= length l)%nat /\
+  (2 * length (filter (above2 (median2 l)) l) <= length l)%nat.
+Proof. exact median2_rank. Qed.
+
 (* the written table is a permutation of the aggregate in ascending score order *)
 Theorem C08_sorted : forall t,
   Permutation (final_sort t) t /\ StronglySorted (fun r1 r2 : Aggregate.row => (snd r1 <= snd r2)%Z) (final_sort t).
@@ -113,6 +119,7 @@ Print Assumptions C08_median_rows.
 Print Assumptions C08_median_one_row_per_pair.
 Print Assumptions C08_scores_of.
 Print Assumptions C08_median2_meaning.
+Print Assumptions C08_median_rank.
 Print Assumptions C08_sorted.
 Print Assumptions C08_checkpoint_prefix.
 Print Assumptions C08_grouped.
